@@ -38,13 +38,18 @@ Open Scope string_scope.
 
 H2 = [("H", (0., 0., 0.)), ("H", (0., 0., 0.7414))]
 H4 = [("H", (0., 0., 0.)), ("H", (0., 1.2, 0.)), ("H", (1.1, 0., 0.)), ("H", (1.0, 1.3, 0.2))]
-MOLS = {"H2": (H2, 0, 0), "H4": (H4, 0, 0), "H4+": (H4, 1, 1)}
+# (geometry, charge, spin, frozen molecular orbitals)
+MOLS = {"H2": (H2, 0, 0, []), "H4": (H4, 0, 0, []), "H4+": (H4, 1, 1, []),
+        # active spaces: frozen occupied / occupied + virtual / virtual orbitals, closed and open shell
+        "H4-fc": (H4, 0, 0, [0]), "H4-fcv": (H4, 0, 0, [0, 3]), "H4-fv": (H4, 0, 0, [3]),
+        "H4+-fc": (H4, 1, 1, [0]), "H4+-fv": (H4, 1, 1, [3])}
+ALL_MOLS = ["H2", "H4", "H4+", "H4-fc", "H4-fcv", "H4-fv", "H4+-fc", "H4+-fv"]
 TOL = 1e-9
 
 
 def sm(mname):
     """molecule name as used in signatures (file-name safe and collision free)"""
-    return mname.replace("+", "-cation")
+    return mname.replace("+", "cation")
 
 
 # ------------------------------------------------------------------------------------ exact helpers
@@ -478,9 +483,29 @@ _MOL = {}
 def molecule(name):
     if name not in _MOL:
         from tangelo import SecondQuantizedMolecule
-        xyz, q, spin = MOLS[name]
-        _MOL[name] = SecondQuantizedMolecule(xyz, q=q, spin=spin, basis="sto-3g")
+        xyz, q, spin, frozen = MOLS[name]
+        _MOL[name] = SecondQuantizedMolecule(xyz, q=q, spin=spin, basis="sto-3g", frozen_orbitals=list(frozen) or None)
     return _MOL[name]
+
+
+def ref_sector(ck, name):
+    """(active orbitals, active electrons, Sz) of the reference state, computed here from the mean-field
+    occupations and the list of frozen orbitals - independently of the ansatz objects and of the molecule's own
+    active-space properties (which are compared with it)."""
+    mol = molecule(name)
+    frozen = set(MOLS[name][3])
+    occ = [float(x) for x in mol.mo_occ]
+    active = [i for i in range(len(occ)) if i not in frozen]
+    nel = int(round(sum(occ[i] for i in active)))
+    sz = sum(1 for i in active if abs(occ[i] - 1.0) < 1e-9) / 2
+    n = len(active)
+    got = (mol.n_active_mos, mol.n_active_electrons, mol.active_spin / 2, mol.n_active_sos)
+    if got != (n, nel, sz, 2 * n):
+        ck.violation("C12/molecule/%s/active-space-bookkeeping" % sm(name),
+                     "molecule %s (frozen %s, mo_occ %s): n_active_mos, n_active_electrons, active_spin/2, n_active_sos = %s, "
+                     "recount gives %s" % (name, sorted(frozen), occ, got, (n, nel, sz, 2 * n)),
+                     {"kind": "molecule", "mol": name}, found_input=True)
+    return n, nel, sz
 
 
 def ferm_terms(op):
@@ -543,8 +568,10 @@ def param_sets(ck, nv, count):
 
 
 def sector_stats(freqs, layout, n):
-    """mean and variance of N and Sz from the bitstring distribution (key[q] = qubit q; JW: qubit = spin-orbital)"""
-    en = en2 = es = es2 = 0.0
+    """mean and variance of N and Sz from the bitstring distribution (key[q] = qubit q; JW: qubit = spin-orbital).
+    The simulator works in single precision (norm off by ~1e-7), so the distribution is normalised and the
+    variances are computed centred, sum p (x - mean)^2: a sharp sector gives exactly 0, without cancellation."""
+    vals = []
     tot = 0.0
     for key, p in freqs.items():
         bits = [int(c) for c in key]
@@ -556,11 +583,14 @@ def sector_stats(freqs, layout, n):
             nb = sum(bits[up_dn(ud, n, i)[1]] for i in range(n))
             nn, sz = na + nb, (na - nb) / 2
         tot += p
-        en += p * nn
-        en2 += p * nn * nn
-        es += p * sz
-        es2 += p * sz * sz
-    return tot, en, en2 - en * en, es, es2 - es * es
+        vals.append((p, nn, sz))
+    if tot <= 0:
+        return tot, 0.0, 0.0, 0.0, 0.0
+    en = sum(p * nn for p, nn, sz in vals) / tot
+    es = sum(p * sz for p, nn, sz in vals) / tot
+    vn = sum(p * (nn - en) ** 2 for p, nn, sz in vals) / tot
+    vs = sum(p * (sz - es) ** 2 for p, nn, sz in vals) / tot
+    return tot, en, vn, es, vs
 
 
 def check_state(ck, sig, desc, replay, circuit, layout, n, n_ref, sz_ref, cross=None):
@@ -575,6 +605,9 @@ def check_state(ck, sig, desc, replay, circuit, layout, n, n_ref, sz_ref, cross=
         bad.append("<N> = %.9f (reference %s), Var N = %.3g" % (en, n_ref, vn))
     if vs > TOL or abs(es - sz_ref) > 1e-6:
         bad.append("<Sz> = %.9f (reference %s), Var Sz = %.3g" % (es, sz_ref, vs))
+    if bad and vn <= TOL and vs <= TOL and abs(tot - 1) <= 1e-6:
+        # a sharp sector, but not the one of the reference state (active electrons / active spin recounted here)
+        sig = sig.replace("sector-leak", "wrong-reference-sector")
     if cross is not None and not bad:
         # the same through Tangelo's own operators and encodings
         qn, qs = cross
@@ -602,15 +635,16 @@ def run_generators_and_states(ck, mols, n_sets):
     ck.stream("generators", "fermionic generators handed to fermion_to_qubit_mapping by UCCSD/UpCCGSD/UCCGD "
               "(captured), ADAPT pool elements (uccgsd_generator), molecular Hamiltonians: term lists through the "
               "proved checker conserves_sectors (vm_compute); non-trivial = >= 2 excitation terms")
-    ck.stream("ansatz-states", "cirq statevector of the ansatz circuit (JW; interleaved and up_then_down) at ones / "
+    ck.stream("ansatz-states", "molecules H2, H4, H4+ and H4 / H4+ with frozen occupied, occupied+virtual, virtual orbitals; "
+              "reference N and Sz recounted from mo_occ and the frozen list (not taken from the ansatz or molecule "
+              "properties); cirq statevector of the ansatz circuit (JW; interleaved and up_then_down) at ones / "
               "random / small / grid parameters: mean and variance of N and Sz from the bitstring distribution, "
               "cross-checked with get_expectation_value of the JW-encoded number/spinz operators; non-trivial = "
               "state has >= 2 determinants")
     gen_cases = []     # (label, ud, n, terms, follow-up)
     for mname in mols:
         mol = molecule(mname)
-        n = mol.n_active_mos
-        nel, spin = mol.n_active_electrons, mol.spin
+        n, nel, sz_ref = ref_sector(ck, mname)
         for cls in ("UCCSD", "UpCCGSD", "UCCGD", "pUCCD"):
             for ud in ((False, True) if cls != "pUCCD" else (False,)):
                 try:
@@ -637,7 +671,7 @@ def run_generators_and_states(ck, mols, n_sets):
                         layout = "hcb" if cls == "pUCCD" else ("ud" if ud else "il")
                         st = check_state(ck, "C12/%s/%s/%s/sector-leak" % (cls, sm(mname), "up_then_down" if ud else "interleaved"),
                                          "%s on %s (up_then_down=%s, %s parameters)" % (cls, mname, ud, pk), rep,
-                                         a.circuit, layout, n, nel, spin / 2 if cls != "pUCCD" else 0.0,
+                                         a.circuit, layout, n, nel, sz_ref if cls != "pUCCD" else 0.0,
                                          cross=cross if si == 0 else None)
                     except Exception as e:
                         ck.violation("C12/%s/%s/raises" % (cls, sm(mname)), "%s: %r" % (rep, e), rep, found_input=True)
@@ -736,7 +770,8 @@ def generator_followup(ck, label, ud, n, terms, follow, r):
 
 def run_adapt(ck, mname, mol, gen_cases, n_sets):
     from tangelo.algorithms.variational import ADAPTSolver
-    orderings = (False, True) if (ck.tier != "quick" or mol.n_active_mos <= 2) else ((False,) if mname == "H4" else (True,))
+    orderings = (False, True) if (ck.tier != "quick" or mol.n_active_mos <= 2) else \
+        ((False,) if ALL_MOLS.index(mname) % 2 else (True,))
     for ud in orderings:
         with quiet():
             solver = ADAPTSolver({"molecule": mol, "qubit_mapping": "JW", "up_then_down": ud, "max_cycles": 1})
@@ -761,7 +796,8 @@ def run_adapt(ck, mname, mol, gen_cases, n_sets):
 def adapt_state(ck, solver, mol, ud, picks, params, rep, cross):
     from tangelo.toolboxes.ansatz_generator.adapt_ansatz import ADAPTAnsatz
     with quiet():
-        a = ADAPTAnsatz(mol.n_active_sos, mol.n_active_electrons, mol.spin,
+        # constructed exactly as ADAPTSolver.build does, from the solver's own bookkeeping
+        a = ADAPTAnsatz(solver.n_spinorbitals, solver.n_electrons, solver.spin,
                         ansatz_options={"mapping": "JW", "up_then_down": ud})
         a.build_circuit()
         for p in picks:
@@ -769,7 +805,7 @@ def adapt_state(ck, solver, mol, ud, picks, params, rep, cross):
         a.update_var_params(list(params))
     return check_state(ck, "C12/ADAPT/%s/%s/sector-leak" % (sm(rep["mol"]), "up_then_down" if ud else "interleaved"),
                        "ADAPT circuit on %s with pool elements %s" % (rep["mol"], picks), rep, a.circuit,
-                       "ud" if ud else "il", mol.n_active_mos, mol.n_active_electrons, mol.spin / 2, cross=cross)
+                       "ud" if ud else "il", *ref_sector(ck, rep["mol"]), cross=cross)
 
 
 def run_rucc(ck, n_sets):
@@ -839,7 +875,7 @@ def run_histories(ck, mols):
     update_var_params(p1), update_var_params(p2), every default ansatz, UpCCGSD with k = 1..4, with parameters
     held at exactly zero (fewer Pauli words in some layers / excitations)."""
     ck.stream("ansatz-histories", "build_circuit(p0); update_var_params(p1); update_var_params(p2) on a fresh ansatz "
-              "object (UCCSD, UpCCGSD k=1..4, UCCGD, pUCCD; H2/H4/H4+; JW; both orderings), parameters uniform in "
+              "object (UCCSD, UpCCGSD k=1..4, UCCGD, pUCCD; H2/H4/H4+ and H4, H4+ with frozen occupied / virtual orbitals; JW; both orderings), parameters uniform in "
               "[-1.5,1.5] with a zero pattern kept over the history (none / one layer thinned at a time / first+last / "
               "random); N and Sz mean and variance of the state after EVERY step; non-trivial = history contains an "
               "update and a zero pattern")
@@ -847,7 +883,8 @@ def run_histories(ck, mols):
     rng = ck.rng
     for mname in mols:
         mol = molecule(mname)
-        n, nel, spin = mol.n_active_mos, mol.n_active_electrons, mol.spin
+        n, nel, sz_ref = ref_sector(ck, mname)
+        spin = int(round(2 * sz_ref))
         plan = []
         for k in (1, 2, 3, 4):
             plan.append(("UpCCGSD", k))
@@ -886,7 +923,7 @@ def run_histories(ck, mols):
 def run_one_history(ck, rep, mlabel=""):
     cls, mname, ud, k, steps = rep["cls"], rep["mol"], rep["ud"], rep["k"], rep["steps"]
     mol = molecule(mname)
-    n, nel, spin = mol.n_active_mos, mol.n_active_electrons, mol.spin
+    n, nel, sz_ref = ref_sector(ck, mname)
     layout = "hcb" if cls == "pUCCD" else ("ud" if ud else "il")
     label = cls + ("(k=%d)" % k if k else "")
     sigbase = "C12/%s/%s/%s" % (cls, sm(mname), "up_then_down" if ud else "interleaved")
@@ -911,7 +948,7 @@ def run_one_history(ck, rep, mlabel=""):
             break
         st = check_state(ck, sigbase + ("/sector-leak" if si == 0 else "/sector-leak-after-update"),
                          "%s on %s (up_then_down=%s) after %s (zero pattern %s)" % (label, mname, ud, what, mlabel),
-                         dict(rep, failing_step=si), a.circuit, layout, n, nel, spin / 2 if cls != "pUCCD" else 0.0)
+                         dict(rep, failing_step=si), a.circuit, layout, n, nel, sz_ref if cls != "pUCCD" else 0.0)
         stats.append(st)
     nz = sum(1 for x in steps[0] if x == 0.0)
     ck.case("ansatz-histories", json.dumps([cls, mname, ud, k, steps]), nontrivial=len(stats) >= 2 and nz > 0,
@@ -981,8 +1018,8 @@ def run(ck):
         # the model cannot be evaluated; the implementation-only oracles below still run
         ck.notes["model_evaluation"] = "skipped (generated table unavailable)"
         oracle_only_operators(ck, 3)
-    run_generators_and_states(ck, ["H2", "H4", "H4+"], 2 if quick else 10)
-    run_histories(ck, ["H2", "H4", "H4+"])
+    run_generators_and_states(ck, ALL_MOLS, 2 if quick else 10)
+    run_histories(ck, ALL_MOLS if not quick else ["H2", "H4", "H4+", "H4-fc", "H4+-fv"])
 
 
 def oracle_only_operators(ck, nmax):
@@ -1045,9 +1082,12 @@ def replay(data):
         with quiet():
             a.build_circuit(r["params"])
         layout = "hcb" if r["cls"] == "pUCCD" else ("ud" if r["ud"] else "il")
-        st = check_state(ck, "replay", "replay", r, a.circuit, layout, mol.n_active_mos, mol.n_active_electrons,
-                         mol.spin / 2 if r["cls"] != "pUCCD" else 0.0)
+        n, nel, sz_ref = ref_sector(ck, r["mol"])
+        st = check_state(ck, "replay", "replay", r, a.circuit, layout, n, nel, sz_ref if r["cls"] != "pUCCD" else 0.0)
         print(st)
+        return 1 if ck.violations else 0
+    if kind == "molecule":
+        print(ref_sector(ck, r["mol"]))
         return 1 if ck.violations else 0
     if kind == "history":
         run_one_history(ck, r, "replay")
